@@ -749,3 +749,149 @@ Proof.
 Qed.
 End Place.
 End Sound.
+
+(* ---------------------------------------------------------------------------------------------- *)
+(* 9. the tables and the loops                                                                     *)
+
+Lemma dedupN_incl l a : In a (dedupN l) -> In a l.
+Proof.
+  induction l as [|x r IH]; simpl; [auto|]. intros [<-|H]; [now left|]. apply filter_In in H. right. apply IH. tauto.
+Qed.
+
+Lemma last_in {T} (l : list T) d : l <> [] -> In (last l d) l.
+Proof.
+  induction l as [|x r IH]; [congruence|]. intros _. destruct r as [|y r]; [now left|].
+  right. apply IH. discriminate.
+Qed.
+
+Lemma in_last_opt a l : In a (last_opt l) -> In a l.
+Proof. unfold last_opt. destruct l as [|x r]; [contradiction|]. intros [<-|[]]. apply last_in. discriminate. Qed.
+
+Lemma L_sets_incl alts votes : forall L, In L (get_L_sets alts votes) -> incl L alts.
+Proof.
+  unfold get_L_sets.
+  assert (H : forall l st, (forall L, In L (snd st) -> incl L alts) ->
+                forall L, In L (snd (fold_left (L_step alts) l st)) -> incl L alts).
+  { induction l as [|j l IH]; intros st Hst; [exact Hst|]. cbn [fold_left]. apply IH.
+    destruct st as [[vc prev] acc]. unfold L_step. cbn [snd] in *. intros L HL. apply in_app_or in HL.
+    destruct HL as [HL|[<-|[]]]; [now apply Hst|].
+    intros a Ha. apply dedupN_incl in Ha. apply in_flat_map in Ha. destruct Ha as (w & Hw & Ha).
+    apply in_last_opt in Ha. apply in_map_iff in Hw. destruct Hw as (w0 & <- & _). apply filter_In in Ha.
+    destruct Ha as [_ Ha]. apply andb_true_iff in Ha. apply memN_In. tauto. }
+  apply H. intros L [].
+Qed.
+
+Lemma tbl_set_In t k A e : In e (tbl_set t k A) -> e = (k, A) \/ In e t.
+Proof.
+  induction t as [|[k' A'] r IH]; simpl.
+  - intros [<-|[]]. now left.
+  - destruct (key_eq_dec k k').
+    + intros [<-|H]; [now left|right; now right].
+    + intros [<-|H]; [right; now left|]. destruct (IH H); [now left|right; now right].
+Qed.
+
+Lemma pa_eqb_refl A : pa_eqb A A = true.
+Proof. unfold pa_eqb. destruct (list_eq_dec N.eq_dec (fst A) (fst A)), (list_eq_dec N.eq_dec (snd A) (snd A)); try reflexivity; exfalso; auto. Qed.
+
+Lemma fold_left_inv {S T} (f : S -> T -> S) (P : S -> Prop) l s :
+  (forall x, In x l -> forall s', P s' -> P (f s' x)) -> P s -> P (fold_left f l s).
+Proof.
+  revert s. induction l as [|x l IH]; intros s H Hs; [exact Hs|]. simpl. apply IH.
+  - intros y Hy. apply H. now right.
+  - apply H; [now left|assumption].
+Qed.
+
+Section Loops.
+Variables (alts : list N) (votes : list (list N)).
+Hypothesis Halts : NoDup alts.
+Hypothesis Hvotes : forall v, In v votes -> NoDup v /\ incl alts v.
+Variable pair_first : N -> N -> bool.
+Variable ext_order : list (list N) -> list (list N).
+Hypothesis Hext : forall l X, In X (ext_order l) -> In X l.
+
+Definition StInv (st : dp_state) : Prop :=
+  (forall bd Y A, In ((bd, Y), A) (s_cur st) -> Inv alts votes A Y) /\
+  Good alts votes (s_longest st) /\ Good alts votes (s_locked st).
+
+Lemma eligible_spec i m Y Ls X : (forall L, In L Ls -> incl L alts) ->
+  In X (eligible ext_order i m Y Ls votes) ->
+  exists x1 x2, X = mkset x1 x2 /\ In x1 alts /\ In x2 alts /\ last_check votes Y x1 x2 = true.
+Proof.
+  intros HLs HX. unfold eligible in HX. apply Hext in HX. apply nodup_In in HX.
+  assert (HLi : incl (nth (i - 1) Ls []) alts).
+  { destruct (nth_in_or_default (i - 1) Ls []) as [H|H]; [now apply HLs|rewrite H; intros a []]. }
+  apply in_flat_map in HX. destruct HX as (x1 & H1 & HX). apply in_flat_map in HX. destruct HX as (x2 & H2 & HX).
+  destruct (last_check votes Y x1 x2) eqn:E; [|contradiction]. destruct HX as [<-|[]].
+  exists x1, x2. split; [reflexivity|]. split; [now apply HLi|]. split; [|exact E].
+  apply dedupN_incl in H2. apply in_app_or in H2. destruct H2 as [H2|H2]; [now apply HLi|].
+  apply in_concat in H2. destruct H2 as (L & HL & Ha). apply (HLs L); [|assumption].
+  assert (Hf : forall {T} n (l : list T) y, In y (firstn n l) -> In y l).
+  { intros T n. induction n as [|n IH]; intros l y Hy; [contradiction|]. destruct l; [contradiction|].
+    destruct Hy as [<-|Hy]; [now left|right; now apply IH]. }
+  assert (Hs : forall {T} n (l : list T) y, In y (skipn n l) -> In y l).
+  { intros T n. induction n as [|n IH]; intros l y Hy; [assumption|]. destruct l; [contradiction|]. right. now apply IH. }
+  eapply Hs. eapply Hf. exact HL.
+Qed.
+
+Lemma ext_step_inv A Y st X : Inv alts votes A Y -> StInv st ->
+  (exists x1 x2, X = mkset x1 x2 /\ In x1 alts /\ In x2 alts /\ last_check votes Y x1 x2 = true) ->
+  StInv (ext_step pair_first votes A st X).
+Proof.
+  intros HI (Hc & Hl & Hk) (x1 & x2 & -> & H1 & H2 & Hlc). unfold ext_step.
+  destruct (place pair_first A (mkset x1 x2) votes) as [A' ok] eqn:Hpl.
+  destruct (place_inv alts votes Hvotes pair_first A Y x1 x2 A' ok HI H1 H2 Hlc Hpl) as [Hok Hgood].
+  destruct ok.
+  - specialize (Hok eq_refl). assert (HG' : Good alts votes A') by apply Hok.
+    split; [|split]; cbn [s_cur s_longest s_locked].
+    + intros bd Y0 A0 Hin.
+      assert (Hset : forall e, In e (tbl_set (s_cur st) (boundary A', mkset x1 x2) A') ->
+                     e = ((boundary A', mkset x1 x2), A') \/ In e (s_cur st)) by (intros e; apply tbl_set_In).
+      destruct (tbl_get (s_cur st) (boundary A', mkset x1 x2)) as [B|].
+      * destruct (pa_len B <? pa_len A'); [|now apply (Hc bd)].
+        destruct (Hset _ Hin) as [E|Hin']; [injection E as -> -> ->; assumption|now apply (Hc bd)].
+      * destruct (Hset _ Hin) as [E|Hin']; [injection E as -> -> ->; assumption|now apply (Hc bd)].
+    + destruct (pa_len (s_longest st) <? pa_len A'); assumption.
+    + assumption.
+  - destruct (negb (pa_eqb A' A) && (pa_len (s_locked st) <? pa_len A')) eqn:E; [|exact (conj Hc (conj Hl Hk))].
+    apply andb_true_iff in E. destruct E as [E _]. apply negb_true_iff in E.
+    destruct Hgood as [->|HG']; [rewrite pa_eqb_refl in E; discriminate|].
+    split; [|split]; cbn [s_cur s_longest s_locked]; assumption.
+Qed.
+
+Lemma key_step_inv i m Ls remaining st e : (forall L, In L Ls -> incl L alts) ->
+  Inv alts votes (snd e) (snd (fst e)) -> StInv st ->
+  StInv (key_step pair_first ext_order i m Ls votes remaining st e).
+Proof.
+  intros HLs HI Hst. destruct e as [[bd Y] A]. cbn [fst snd] in HI. unfold key_step.
+  destruct (pa_len A + length remaining <? pa_len (s_longest st)); [assumption|].
+  apply fold_left_inv; [|assumption]. intros X HX s' Hs'. apply (ext_step_inv A Y); auto.
+  eapply eligible_spec; eauto.
+Qed.
+
+Lemma outer_step_inv m Ls st i : (forall L, In L Ls -> incl L alts) ->
+  StInv (fst st) -> StInv (fst (outer_step pair_first ext_order m Ls votes st i)).
+Proof.
+  intros HLs Hst. destruct st as [s remaining]. cbn [fst] in *. unfold outer_step. cbn [fst].
+  apply fold_left_inv; [|assumption]. intros e He s' Hs'. apply key_step_inv; auto.
+  destruct e as [[bd Y] A]. cbn [fst snd]. destruct Hst as [Hc _]. now apply (Hc bd).
+Qed.
+
+Theorem longest_axis_good : let r := longest_axis pair_first ext_order alts votes in
+  NoDup (fst r) /\ incl (fst r) alts /\ (forall v, In v votes -> spv v (fst r)) /\
+  snd r = filter (fun a => negb (memN a (fst r))) alts.
+Proof.
+  unfold longest_axis. cbv zeta. cbn [fst snd].
+  set (Ls := get_L_sets alts votes).
+  assert (HLs : forall L, In L Ls -> incl L alts) by apply L_sets_incl.
+  set (st0 := (mk_dp init_table pa_empty pa_empty, alts)).
+  assert (H0 : StInv (fst st0)).
+  { split; [|split]; cbn; try apply Good_empty. intros bd Y A [E|[]]. injection E as <- <- <-. apply Inv_empty. }
+  assert (H : StInv (fst (fold_left (outer_step pair_first ext_order (length alts) Ls votes) (seq 1 (length alts)) st0))).
+  { apply (fold_left_inv _ (fun st => StInv (fst st))); [|assumption]. intros i _ s' Hs'. now apply outer_step_inv. }
+  destruct H as (_ & Hl & Hk).
+  set (st := fst (fold_left _ _ st0)) in *.
+  assert (HG : Good alts votes (if pa_len (s_longest st) <? pa_len (s_locked st) then s_locked st else s_longest st)).
+  { destruct (pa_len (s_longest st) <? pa_len (s_locked st)); assumption. }
+  destruct HG as (G1 & G2 & G3). repeat split; assumption.
+Qed.
+End Loops.
